@@ -77,7 +77,6 @@ pub struct MemInner {
     /// (added for C17) `read_full` / `read_partial` of exactly these files fail with a backend error although the file is
     /// stored and listed (transient read error / throttling); empty = no read faults
     pub fail_reads_of: BTreeSet<(u8, Id)>,
-<<<<<<< HEAD
     /// (added for C02) `remove` of exactly these files fails with a backend error (the file stays): an interrupted clean-up
     pub fail_removes_of: BTreeSet<(u8, Id)>,
     /// (added for C02) serving order: files in this list are listed first, in this order, and `read_full` of the file at
@@ -86,7 +85,6 @@ pub struct MemInner {
     pub serve_order: Vec<(u8, Id)>,
     pub served: BTreeSet<(u8, Id)>,
     pub serve_gap_ms: u64,
-=======
     /// (added for C08) every `read_partial` call with its arguments, in call order — `reads` does not keep the `cacheable` flag
     pub preads: Vec<PRead>,
 }
@@ -99,7 +97,6 @@ pub struct PRead {
     pub cacheable: bool,
     pub offset: u32,
     pub length: u32,
->>>>>>> agent-V2
 }
 
 type Gate = Arc<dyn Fn(usize, &LogOp) + Send + Sync>;
@@ -170,7 +167,6 @@ impl MemBackend {
             _ = g.fail_reads_of.remove(&(ft_idx(tpe), id));
         }
     }
-<<<<<<< HEAD
     /// (added for C02) make every `remove` of file `(tpe, id)` fail (`on = true`) or work again (`on = false`)
     pub fn set_fail_removes_of(&self, tpe: FileType, id: Id, on: bool) {
         let mut g = self.inner.lock().unwrap();
@@ -215,14 +211,13 @@ impl MemBackend {
             std::thread::sleep(std::time::Duration::from_millis(1));
         }
         std::thread::sleep(std::time::Duration::from_millis(gap));
-=======
+    }
     /// (added for C08) the recorded `read_partial` calls (with their `cacheable` flag); `take` empties the record
     pub fn preads(&self) -> Vec<PRead> {
         self.inner.lock().unwrap().preads.clone()
     }
     pub fn take_preads(&self) -> Vec<PRead> {
         std::mem::take(&mut self.inner.lock().unwrap().preads)
->>>>>>> agent-V2
     }
     pub fn ids(&self, tpe: FileType) -> Vec<Id> {
         let t = ft_idx(tpe);
